@@ -224,6 +224,46 @@ fn main() {
         for d in &diags { println!("diag {:?} {:?} syntax={}", d.span, d.msg, d.syntax); }
         return;
     }
+    if args.len() >= 4 && args[1] == "diagpos" {
+        // one line per input over the given characters (pattern 0, entry `parse`): position of the first
+        // syntax diagnostic or -1; read by the bounded first-error check of C06 (tool/viable.py)
+        let maxlen: usize = args[2].parse().unwrap_or(3);
+        let chars: Vec<char> = args[3].chars().collect();
+        let n = chars.len();
+        let mut out = String::new();
+        for len in 0..=maxlen {
+            if len > 0 && n == 0 { break; }
+            let mut idx = vec![0usize; len];
+            loop {
+                let s: String = idx.iter().map(|&i| chars[i]).collect();
+                PATTERN.store(0, Ordering::SeqCst);
+                CALLS.store(0, Ordering::SeqCst);
+                if let Ok(mut g) = CURRENT.lock() { *g = format!("{}\t0\t0", s); }
+                PROGRESS.fetch_add(1, Ordering::SeqCst);
+                let s2 = s.clone();
+                let r = std::panic::catch_unwind(move || {
+                    let mut diags = vec![];
+                    let parser = Parser::new(&s2, &mut diags);
+                    let _cst = parser.parse(&mut diags);
+                    diags.iter().filter(|d| d.syntax).map(|d| d.span.start as i64).next().unwrap_or(-1)
+                });
+                match r { Ok(p) => out.push_str(&format!("{}\t{}\n", s, p)), Err(_) => out.push_str(&format!("{}\tpanic\n", s)) }
+                let mut k = len;
+                let mut done = len == 0;
+                while k > 0 {
+                    k -= 1;
+                    idx[k] += 1;
+                    if idx[k] < n { break; }
+                    idx[k] = 0;
+                    if k == 0 { done = true; }
+                }
+                if done { break; }
+            }
+        }
+        print!("{}", out);
+        println!("DIAGPOS_DONE");
+        return;
+    }
     if args.len() >= 3 && args[1] == "digest" {
         // one line per (input, predicate pattern, entry): a hash of the printed tree and the diagnostics;
         // used to compare two builds of the same parser (E13 rewrite identity)
